@@ -115,7 +115,9 @@ class Body:
                 for si, st in enumerate(b["st"]):
                     if st["s"] == "assign" and "inl" in st:
                         # result of a spliced (transparent) helper: symbolically still a call (rules/inline.py)
-                        d[st["p"][0]].append((bi, si, "call" if place_is_local(st["p"]) else "partial", st["inl"]))
+                        t_ = dict(st["inl"])
+                        t_["_inl_src"] = st["r"]   # the real data flow: dest = use(move <callee return slot>)
+                        d[st["p"][0]].append((bi, si, "call" if place_is_local(st["p"]) else "partial", t_))
                     elif st["s"] == "assign" and place_is_local(st["p"]):
                         d[st["p"][0]].append((bi, si, "assign", st["r"]))
                     elif st["s"] == "assign":
